@@ -67,6 +67,33 @@ actions see, and the state (md5 of every file_dep, existence of targets) at ever
         interrupted task is neither reported successful nor saved.  An interrupt that is swallowed is a violation of its own,
         whatever the DB says afterwards.
 
+(1d) the OTHER ways a run aborts (the property: "... or by an internal error").  KeyboardInterrupt / SystemExit are not the only exceptions
+    that leave Runner.run_tasks; Runner.run_all flushes the DB in a `finally:` whatever the exception is.  Abort kinds:
+      (a) another BaseException subclass raised by a python-action -- a class of the user's own (C06Abort), GeneratorExit,
+          asyncio.CancelledError -- serial, thread and process runner (the parallel master re-raises the class its worker reports);
+      (b) an exception raised by the uptodate callable of a (later) task at check time (Dependency.get_status, called by select_task);
+      (c) an exception raised by a value-saver when Task.save_extra_values collects the values AFTER the task's actions ran: a callable
+          registering a raising saver, and doit.tools.check_timestamp_unchanged on a file that does not exist (OSError, as documented);
+      (d) a cyclic dependency the dispatcher finds at run time after tasks completed (task_dep / setup edges closing a cycle are added
+          to the task set for the aborting run only: the user's edit of the dodo file, taken back before the next run): the `ancestors`
+          diagnostic and the "hold on" one (two tasks created by the same parent waiting for each other); InvalidDodoFile, exit 3.
+    A SYSTEMATIC block that is the same on every seed -- 17 abort points of a fixed 6-task set (t0 with task_dep t1 and setup-task t2: the
+    cycle through t2 and a raising check of t2 are met only after t1 was reported successful, with EVERY runner) x every backend x
+    {serial, thread, process} (quick tier, parallel runners: eight of the points on every backend, the others on one backend each) -- and random
+    (task, action, kind / closing edge, backend, runner, fresh / prior) points in generated task sets of (1) and (1b).
+      * oracle 0 (the abort is seen): (a) the exception escapes DoitMain.run as the class that was raised (exit status 97 of the child);
+        (b)-(d) DoitMain.run returns the error exit 3; the aborting task is neither reported successful nor saved; serial runner: nothing is
+        selected / executed / reported / saved after the abort point;
+      * oracle 1: Dependency.close ran EXACTLY ONCE (the DB was flushed), nothing is saved, removed or reported successful after it;
+      * oracle 2 / 2b / 3 as in (1): the DB read by the real backend class records exactly the tasks saved before the abort (+ untouched prior
+        records); every task REPORTED successful before the abort is skipped by the next run (which is run without the defect), the aborting
+        task is executed.
+      * correspondence: Model/Runner.v has the ends StopNormal, StopCycle, StopHold, StopInterrupt (+ StopFuel).  (d) is StopCycle /
+        StopHold: the serial runs are compared with run_serial (trace incl. close / teardowns / the marker 11 or 12 = which of the two
+        InvalidDodoFile diagnostics the dispatcher raised, exit code 3) and their DB with Crash.session_db -- the ends C06_every_exit_flushes speaks about.  (a)-(c) have
+        no end in the model (Runner.v is shared and not extended here): oracles only; a case whose abort point is not reached is a
+        normal run and is compared as such.
+
 (2) kill sweep.  The same child under
         strace -f -P <db files> -e trace=S -e inject=<s>:signal=SIGKILL:when=<k>
         S = openat,write,pwrite64,rename,unlink,ftruncate,fsync,fdatasync
@@ -98,7 +125,8 @@ actions see, and the state (md5 of every file_dep, existence of targets) at ever
 Encoding of an observed run (= Runner.enc_trace ++ [-1; rc]):
     [1,t] get_status  [2,t] skip_ignore  [3,t] skip_uptodate  [4,t,kind] add_failure (0 TaskFailed 1 TaskError
     2 UnmetDependency 3 DependencyError)  [5,t] execute_task  [6,t] add_success  [7,t] save_success
-    [8,t] remove_success  [9,t] teardown_task  [10] Dependency.close  [13] KeyboardInterrupt/SystemExit escaped
+    [8,t] remove_success  [9,t] teardown_task  [10] Dependency.close  [11] / [12] the run ended (exit 3) by the cyclic-dependency /
+    "waiting for each other" InvalidDodoFile of the dispatcher  [13] KeyboardInterrupt/SystemExit escaped
     DoitMain.run;  rc: exit code of DoitMain.run, 4 when the interrupt escaped, 97 any other escaping exception.
 Encoding of the DB after an interrupted run (appended after the marker -7; = Crash.enc_spec): per task, in definition
     order, [-1] = no record | [1, v_0, ..., v_(K-1)] = the id of the JSON value stored under each of the K record keys
@@ -172,6 +200,11 @@ def dep_state_of(t):
     return [[p, _md5(p)] for p in sorted(t['file_dep'])] + ([[t['revfile'], _md5(t['revfile'])]] if t.get('revfile') else [])
 
 
+class C06Abort(BaseException):
+    """(1d) a BaseException subclass of the user's own that is neither KeyboardInterrupt nor SystemExit.  Module level: the process
+    runner sends the CLASS of the exception through a queue (pickled by reference) and the master re-raises it"""
+
+
 class _Log:
     """append-only, fsync'ed JSON lines: survives SIGKILL of the writer"""
     def __init__(self, path):
@@ -209,6 +242,13 @@ def child_main(spec_path):
                 raise KeyboardInterrupt('c06')
             if kind == 'sysexit':
                 raise SystemExit(7)
+            if kind == 'custombase':     # (1d): BaseException subclasses other than the two
+                raise C06Abort('c06')
+            if kind == 'genexit':
+                raise GeneratorExit('c06')
+            if kind == 'cancelled':
+                import asyncio
+                raise asyncio.CancelledError('c06')
             if kind == 'error':
                 raise RuntimeError('c06 action error')
             if kind == 'fail':
@@ -239,6 +279,26 @@ def child_main(spec_path):
             return values.get('rev') == rev_of(t)
         return saved_rev_is_current
 
+    def make_abort_check(t):
+        """(1d) uptodate callables of the aborting run: 'utd' raises at check time; 'saver' registers a value-saver that raises when
+        the values are collected after the task's actions ran (it answers None = "no opinion"); 'stamp' is the documented helper
+        doit.tools.check_timestamp_unchanged on a file that does not exist (its saver raises the OSError the docs announce)"""
+        if t['abort'] == 'stamp':
+            from doit.tools import check_timestamp_unchanged
+            return check_timestamp_unchanged('c06-no-such-stamp-file')
+
+        def raising_check(task, values):
+            log('raise', run_id, 'utd', t['name'])
+            raise RuntimeError('c06 uptodate check error')
+
+        def registers_raising_saver(task, values):
+            def raising_saver():
+                log('raise', run_id, 'saver', t['name'])
+                raise ValueError('c06 value saver error')
+            task.value_savers.append(raising_saver)
+            return None
+        return raising_check if t['abort'] == 'utd' else registers_raising_saver
+
     def make_teardown(t):
         def td():
             log('teardown-action', run_id, t['name'])
@@ -252,6 +312,10 @@ def child_main(spec_path):
                 d['teardown'] = [make_teardown(t)]
             if t.get('revfile'):
                 d['uptodate'] = [make_uptodate(t)]
+            if t.get('abort'):
+                d['uptodate'] = d.get('uptodate', []) + [make_abort_check(t)]
+            if t.get('setup'):
+                d['setup'] = list(t['setup'])
             if t.get('getargs'):
                 d['getargs'] = {'v': (t['getargs'][0], t['getargs'][1])}
             # how the actions are executed (not modelled on the Coq side, see (1c)): capture mode and verbosity
@@ -329,6 +393,23 @@ def child_main(spec_path):
         o_tdinit(self, tasks, targets, selected_tasks)
         log('table', run_id, {nm: [list(t.task_dep), list(t.setup_tasks)] for nm, t in tasks.items()})
     C.TaskDispatcher.__init__ = w_tdinit
+
+    # the two cyclic-dependency diagnostics (stop_marker of Model/Runner.v).  Not taken from stderr: with the thread runner sys.stderr may
+    # be the capture buffer of an action that is running in another thread at that moment, and the message is then lost
+    from doit.exceptions import InvalidDodoFile
+    o_gen, o_hold = C.TaskDispatcher._gen_node, C.TaskDispatcher.cyclic_hold_error
+
+    def w_gen(self, parent, task_name):
+        try:
+            return o_gen(self, parent, task_name)
+        except InvalidDodoFile:
+            log('mark', run_id, 11)
+            raise
+
+    def w_hold(self):
+        log('mark', run_id, 12)
+        return o_hold(self)
+    C.TaskDispatcher._gen_node, C.TaskDispatcher.cyclic_hold_error = w_gen, w_hold
 
     o_uw = C.TaskDispatcher._update_waiting
 
@@ -526,19 +607,31 @@ def write_source(d, name, version):
     os.utime(p, (mt, mt))
 
 
-def with_kinds(sc, kinds):
-    """kinds: {task name: (action index, kind)} -> copy of the task list with that action replaced"""
+ABORT_ACTION_KINDS = {'custombase': 'C06Abort', 'genexit': 'GeneratorExit', 'cancelled': 'CancelledError'}   # kind -> class that must escape
+ABORT_TASK_KINDS = ('utd', 'saver', 'stamp')     # (1d): the task gets an uptodate callable that raises / registers a raising value-saver
+ABORT_GRAPH_KINDS = ('cycle',)                   # (1d): task_dep / setup edges closing a cycle are added for the aborting run
+
+
+def with_kinds(sc, kinds, edges=None):
+    """kinds: {task name: (action index, kind)} -> copy of the task list with that action replaced (kinds of ABORT_TASK_KINDS: the
+    task gets the attribute `abort` instead); edges: [[from, to, 'task_dep' | 'setup']] added to the tasks"""
     tasks = json.loads(json.dumps(sc['tasks']))
     for t in tasks:
         if t['name'] in kinds:
             ai, kind = kinds[t['name']]
-            t['actions'][min(ai, len(t['actions']) - 1)]['kind'] = kind
+            if kind in ABORT_TASK_KINDS:
+                t['abort'] = kind
+            else:
+                t['actions'][min(ai, len(t['actions']) - 1)]['kind'] = kind
+        for a, b, how in (edges or []):
+            if a == t['name']:
+                t[how] = list(t.get(how) or []) + [b]
     return tasks
 
 
-def run_child(d, sc, backend, run_id, kinds=None, args=(), strace=None, timeout=120):
+def run_child(d, sc, backend, run_id, kinds=None, args=(), strace=None, timeout=120, edges=None):
     """one doit invocation in directory d.  strace: None | dict(out=path, inject=(syscall, k) or None)"""
-    spec = dict(dir=d, db=os.path.join(d, DBNAME), backend=backend, tasks=with_kinds(sc, kinds or {}), selected=sc['selected'],
+    spec = dict(dir=d, db=os.path.join(d, DBNAME), backend=backend, tasks=with_kinds(sc, kinds or {}, edges), selected=sc['selected'],
                 args=list(args), log='c06.log', run_id=run_id)
     sp = os.path.join(d, 'c06-spec-%d.json' % run_id)
     with open(sp, 'w') as f:
@@ -574,7 +667,7 @@ def read_log(d):
 def run_view(recs, run_id):
     """what one run did, from the log"""
     v = dict(events=[], trace=[], rc=None, done={}, sel={}, wake={}, ended=False, escaped=None, started=[],
-             vals={}, utdv=[], got=[], sets={}, rtok={}, table=None)
+             vals={}, utdv=[], got=[], sets={}, rtok={}, table=None, raised=[], marks=[])
     for r in recs:
         if len(r) < 2 or r[1] != run_id:
             continue
@@ -605,6 +698,10 @@ def run_view(recs, run_id):
             v['escaped'] = r[2]
         elif k == 'start':
             v['started'].append((r[2], r[3]))
+        elif k == 'raise':
+            v['raised'].append((r[2], r[3]))
+        elif k == 'mark':
+            v['marks'].append(r[2])
     return v
 
 
@@ -690,7 +787,7 @@ def model_rows(sc, kinds, utd_names, table=None):
     if table is None:
         from doit.task import Task
         from doit.control import TaskControl
-        tl = [Task(t['name'], [], file_dep=t['file_dep'], targets=t['targets'], task_dep=t['task_dep'],
+        tl = [Task(t['name'], [], file_dep=t['file_dep'], targets=t['targets'], task_dep=t['task_dep'], setup=list(t.get('setup') or []),
                    getargs=({'v': tuple(t['getargs'])} if t.get('getargs') else {})) for t in sc['tasks']]
         tc = TaskControl(tl)
         table = {nm: [list(tc.tasks[nm].task_dep), list(tc.tasks[nm].setup_tasks)] for nm in names}
@@ -700,7 +797,7 @@ def model_rows(sc, kinds, utd_names, table=None):
         kind = (kinds or {}).get(t['name'], (0, 'ok'))[1]
         rows.append(dict(task_dep=[ids[x] for x in task_dep], setup=[ids[x] for x in setup], calc_dep=[], teardown=bool(t.get('teardown')),
                          dbignore=False, check='utd' if t['name'] in utd_names else 'run', argerr=False,
-                         outcome={'ok': 'ok', 'fail': 'fail', 'error': 'error', 'kbd': 'interrupt', 'sysexit': 'interrupt'}[kind],
+                         outcome={'ok': 'ok', 'fail': 'fail', 'error': 'error', 'kbd': 'interrupt', 'sysexit': 'interrupt'}.get(kind, 'ok'),
                          calc_task=[], calc_file=[], calc_calc=[]))
     return rows
 
@@ -856,7 +953,7 @@ def interrupt_case(job):
     if history is None:
         history = [] if variant == 'fresh' else [job.get('modify', [])]
     revert = job.get('revert', [])
-    res = dict(job=dict(replay='interrupt', backend=backend, variant=variant, target=target, ai=ai, kind=kind, args=args2,
+    res = dict(job=dict(replay=job.get('replay', 'interrupt'), edges=job.get('edges'), backend=backend, variant=variant, target=target, ai=ai, kind=kind, args=args2,
                         modify=job.get('modify', []), history=history, revert=revert, failing=job.get('failing'),
                         runner=job.get('runner', 'serial'), tasks=sc['tasks'], selected=sc['selected']), problems=[], complaints=[])
     os.makedirs(d, exist_ok=True)
@@ -877,12 +974,17 @@ def interrupt_case(job):
             version[s] += 1
             write_source(d, s, version[s])
         rid += 1
-    kinds = {target: (ai, kind)}
+    kinds = {target: (ai, kind)} if kind not in ABORT_GRAPH_KINDS else {}
     if job.get('failing'):
         kinds[job['failing']] = (0, 'fail')
     rec0 = db_records(d, backend)
-    rc1, err1 = run_child(d, sc, backend, rid, kinds=kinds, args=args2)
+    rc1, err1 = run_child(d, sc, backend, rid, kinds=kinds, args=args2, edges=job.get('edges'))
     v1 = book.enrich(sc, run_view(read_log(d), rid))
+    if rc1 == 3 and v1['marks']:
+        # the InvalidDodoFile that left run_all (after finish()) and that DoitMain.run turned into exit 3: stop_marker of Model/Runner.v
+        v1['events'].append([v1['marks'][-1]])
+        v1['trace'] += [v1['marks'][-1]]
+    res['err1'] = err1[-600:]
     rec1 = db_records(d, backend)
     res['rc1'], res['v1'], res['rec0'], res['rec1'] = rc1, v1, rec0, rec1
     utd1 = {nm for nm in names if nm in v1['sel'] and book.utd(nm, v1['sel'][nm])}
@@ -930,6 +1032,29 @@ def db_model(names, rec0, rec1, sets):
         r = rec1.get(nm)
         exp += [-1] if r is None else [1] + [vid(r[k]) if k in r else -1 for k in keys]
     return term, exp
+
+
+def model_case(sc, job, res, desc, sfx):
+    """the correspondence case of one serial run that ended by an exception: trace + exit code of Model/Runner.v run_serial and --
+    through Crash.db_ops on that trace -- the whole DB the run leaves, against what was observed.  Returns (case, DB compared?)"""
+    names = [t['name'] for t in sc['tasks']]
+    ids = {nm: i for i, nm in enumerate(names)}
+    v1 = res['v1']
+    rows = model_rows(sc, res['kinds'], set(res['utd1']), v1.get('table'))
+    wake = {int(p): o for p, o in v1['wake'].items()}
+    defs = '\n'.join([runlib.coq_table(rows, sfx), runlib.coq_wake(wake, sfx)])
+    cont = 'true' if '--continue' in job['args'] else 'false'
+    expected = v1['trace'] + [-1, res['rc1'] if res['rc1'] is not None else 95]
+    dbm, dbx = db_model(names, res['rec0'], res['rec1'], v1['sets'])
+    if dbm is None:
+        expr = ('let r := run_serial tb%s wk%s (fun x => x) %s false FUEL %s in enc_trace (fst r) ++ [-1; zN (snd r)]%%Z'
+                % (sfx, sfx, cont, runlib.nl([ids[x] for x in sc['selected']])))
+    else:
+        expr = ('let r := run_serial tb%s wk%s (fun x => x) %s false FUEL %s in '
+                'enc_trace (fst r) ++ [-1; zN (snd r)]%%Z ++ ((-7)%%Z :: %s)'
+                % (sfx, sfx, cont, runlib.nl([ids[x] for x in sc['selected']]), dbm.replace('@TR@', '(fst r)')))
+        expected = expected + [-7] + dbx
+    return dict(defs=defs, model=expr, expected=expected, desc=('interrupt-trace+db', desc)), int(dbm is not None)
 
 
 def part_interrupt(ctx, out, cases):
@@ -1041,23 +1166,9 @@ def part_interrupt(ctx, out, cases):
         # correspondence with Runner.v (serial runner only): the trace and exit code of the interrupted run, and -- through
         # Crash.db_ops on that trace -- the whole DB it leaves (every record, key by key)
         if serial:
-            rows = model_rows(sc, res['kinds'], set(res['utd1']), v1.get('table'))
-            sfx = str(len(cases))
-            wake = {int(p): o for p, o in v1['wake'].items()}
-            defs = '\n'.join([runlib.coq_table(rows, sfx), runlib.coq_wake(wake, sfx)])
-            cont = 'true' if '--continue' in job['args'] else 'false'
-            expected = v1['trace'] + [-1, res['rc1'] if res['rc1'] is not None else 95]
-            dbm, dbx = db_model(names, res['rec0'], res['rec1'], v1['sets'])
-            if dbm is None:
-                expr = ('let r := run_serial tb%s wk%s (fun x => x) %s false FUEL %s in enc_trace (fst r) ++ [-1; zN (snd r)]%%Z'
-                        % (sfx, sfx, cont, runlib.nl([ids[x] for x in sc['selected']])))
-            else:
-                expr = ('let r := run_serial tb%s wk%s (fun x => x) %s false FUEL %s in '
-                        'enc_trace (fst r) ++ [-1; zN (snd r)]%%Z ++ ((-7)%%Z :: %s)'
-                        % (sfx, sfx, cont, runlib.nl([ids[x] for x in sc['selected']]), dbm.replace('@TR@', '(fst r)')))
-                expected = expected + [-7] + dbx
-                n_dbmodel += 1
-            cases.append(dict(defs=defs, model=expr, expected=expected, desc=('interrupt-trace+db', desc)))
+            case, with_db = model_case(sc, job, res, desc, str(len(cases)))
+            n_dbmodel += with_db
+            cases.append(case)
             n_model += 1
         # oracle 1: the trace properties of C06_interrupt_flush
         if reached and serial:
@@ -1167,6 +1278,255 @@ def part_interrupt(ctx, out, cases):
     out.extra['interrupt_runs'] = len(jobs)
     out.extra['interrupt_runs_compared_with_Runner_v'] = n_model
     out.extra['interrupt_runs_whose_DB_was_compared_with_Crash_v_db_ops'] = n_dbmodel
+
+
+# ------------------------------------------------------------------ (1d) the other ways a run aborts
+def fixed_abort_scenario():
+    """the task set of the systematic (seed-independent) block of (1d).  Executed in the order t1, t2, t0, t5, t4, t3 by the serial
+    runner: t0 has the task_dep t1 and the setup-task t2 (created only after t0 was found out of date, i.e. after t1 was
+    reported successful -- with every runner); t3 depends on t4 and t5 (t4 on t5) and, through its file_dep out0, on t0"""
+    ok = lambda **kw: dict(kind='ok', **kw)
+    tasks = [
+        dict(name='t0', file_dep=['src0'], targets=['out0'], task_dep=['t1'], setup=['t2'], actions=[ok()], teardown=False, pad=0),
+        dict(name='t1', file_dep=['src1'], targets=['out1'], task_dep=[], actions=[ok(), ok()], teardown=True, pad=7),
+        dict(name='t2', file_dep=['src2'], targets=['out2'], task_dep=[], actions=[ok()], teardown=False, pad=0, io={'capture': False}),
+        dict(name='t3', file_dep=['src3', 'out0'], targets=['out3'], task_dep=['t4', 't5'], actions=[ok()], teardown=True, pad=0),
+        dict(name='t4', file_dep=['src4'], targets=['out4'], task_dep=['t5'], actions=[ok(cmd=True), ok()], teardown=False, pad=300),
+        dict(name='t5', file_dep=['src5'], targets=['out5'], task_dep=[], actions=[ok()], teardown=False, pad=0),
+    ]
+    return dict(tasks=tasks, selected=['t0', 't3'])
+
+
+# the abort points of the systematic block: (kind, task, action index, edges, label)
+FIXED_ABORT_POINTS = [
+    # (a) BaseException subclasses other than KeyboardInterrupt / SystemExit raised by an action
+    ('custombase', 't1', 0, None, 'a'), ('genexit', 't1', 1, None, 'a'), ('cancelled', 't2', 0, None, 'a'),
+    ('custombase', 't0', 0, None, 'a'), ('cancelled', 't5', 0, None, 'a'), ('genexit', 't3', 0, None, 'a'),
+    # (b) the uptodate callable of a later task raises at check time
+    ('utd', 't0', 0, None, 'b'), ('utd', 't2', 0, None, 'b'), ('utd', 't5', 0, None, 'b'), ('utd', 't3', 0, None, 'b'),
+    # (c) a value-saver raises after the task's actions ran
+    ('saver', 't1', 0, None, 'c'), ('stamp', 't0', 0, None, 'c'), ('saver', 't4', 0, None, 'c'), ('stamp', 't3', 0, None, 'c'),
+    # (d) a dependency cycle that the dispatcher finds at run time, after tasks completed: through the setup-task of t0 (found when t0 was
+    # selected, after t1 succeeded), through a task_dep of t3 (ancestors), and two tasks created by the same parent waiting for each other
+    # ("hold on": no diagnostic before every other task is done)
+    ('cycle', None, 0, [['t2', 't0', 'task_dep']], 'd-setup-cycle'), ('cycle', None, 0, [['t5', 't3', 'task_dep']], 'd-dep-cycle'),
+    ('cycle', None, 0, [['t5', 't4', 'task_dep']], 'd-hold'),
+]
+FIXED_ABORT_QUICK_PARALLEL = {('genexit', 't1'), ('custombase', 't0'), ('utd', 't0'), ('utd', 't3'), ('saver', 't4'), ('stamp', 't0'),
+                              ('cycle', 'd-setup-cycle'), ('cycle', 'd-hold')}
+
+
+def depends_on(sc):
+    """{task: set of the tasks it (transitively) waits for}: task_dep, setup, getargs producers and file_deps on other tasks' targets"""
+    owner = {tg: t['name'] for t in sc['tasks'] for tg in t['targets']}
+    direct = {t['name']: set(t['task_dep']) | set(t.get('setup') or []) | ({t['getargs'][0]} if t.get('getargs') else set())
+              | {owner[f] for f in t['file_dep'] if f in owner} for t in sc['tasks']}
+    reach = {nm: set(ds) for nm, ds in direct.items()}
+    changed = True
+    while changed:
+        changed = False
+        for nm in reach:
+            more = set().union(*[reach[x] for x in reach[nm]]) - reach[nm] if reach[nm] else set()
+            if more:
+                reach[nm] |= more
+                changed = True
+    return reach
+
+
+def abort_reached(job, v1, ids):
+    """did the aborting run get to the abort point"""
+    kind, target = job['kind'], job['target']
+    if kind in ABORT_ACTION_KINDS:
+        return (target, job['ai']) in [tuple(x) for x in v1['started']]
+    if kind in ('utd', 'saver'):
+        return (kind, target) in [tuple(x) for x in v1['raised']]
+    if kind == 'stamp':
+        return [5, ids[target]] in v1['events'] and target in v1['done']
+    return [11] in v1['events'] or [12] in v1['events']
+
+
+ABORT_WHAT = {'custombase': 'a BaseException subclass of the user raised inside action %(ai)d of %(target)s',
+              'genexit': 'GeneratorExit raised inside action %(ai)d of %(target)s',
+              'cancelled': 'asyncio.CancelledError raised inside action %(ai)d of %(target)s',
+              'utd': 'an exception raised by the uptodate callable of %(target)s at check time',
+              'saver': 'an exception raised by a value-saver of %(target)s after its actions ran',
+              'stamp': 'the OSError of check_timestamp_unchanged(<missing file>) raised when the values of %(target)s were saved after its actions ran',
+              'cycle': 'a cyclic dependency (%(edges)s added) found by the dispatcher at run time'}
+
+
+def judge_abort(job, res):
+    """the oracles of (1d) on one case.  Returns (violations [(shape suffix, sentence)], reached)"""
+    sc = job['sc']
+    names = [t['name'] for t in sc['tasks']]
+    ids = {nm: i for i, nm in enumerate(names)}
+    v1, v2 = res['v1'], res['v2']
+    ev = v1['events']
+    kind, target = job['kind'], job['target']
+    k = ids.get(target)
+    serial = job['runner'] in ('serial', 'timestamp')
+    reached = abort_reached(job, v1, ids)
+    how = ABORT_WHAT[kind] % dict(ai=job['ai'], target=target, edges=job.get('edges'))
+    where = 'run aborted by %s (%s backend, %s runner, %s)' % (how, job['backend'], job['runner'], job['variant'])
+    viol = []
+    succ1 = [names[i] for i in ev_tasks(v1, 6)]
+    # oracle 0: the abort ends the run, and is seen by the caller: the BaseException escapes DoitMain.run as the class that was raised,
+    # an Exception / a cyclic dependency gives the error exit 3; the aborting task is neither reported successful nor saved; serial
+    # runner: nothing is selected, executed, reported or saved after the abort point
+    if reached:
+        why0 = []
+        if kind in ABORT_ACTION_KINDS:
+            if res['rc1'] != 97 or v1['escaped'] != ABORT_ACTION_KINDS[kind]:
+                why0.append('the exception did not reach the caller of DoitMain.run as %s (exit status %s, escaped: %s)'
+                            % (ABORT_ACTION_KINDS[kind], res['rc1'], v1['escaped']))
+        elif res['rc1'] != 3:
+            why0.append('exit status %s (escaped: %s), expected the error exit 3' % (res['rc1'], v1['escaped']))
+        if k is not None and ([6, k] in ev or [7, k] in ev):
+            why0.append('the aborting task was %s' % ' and '.join(w for c, w in ((6, 'reported successful'), (7, 'saved as successful')) if [c, k] in ev))
+        if kind == 'utd' and [5, k] in ev:
+            why0.append('the task whose check raised was executed')
+        if serial and k is not None:
+            at = ev.index([1, k] if kind == 'utd' else [5, k])
+            later = [e for e in ev[at + 1:] if e[0] in (1, 2, 3, 4, 5, 6, 7, 8)]
+            if later:
+                why0.append('the run went on after the abort point: %s' % later)
+        if why0:
+            viol.append(('swallowed', 'SWALLOWED ABORT: %s: %s' % (where, '; '.join(why0))))
+    # oracle 1: the DB was closed (flushed) exactly once, and nothing is saved / removed / reported afterwards
+    ncl = ev.count([10])
+    if ncl != 1:
+        viol.append(('not-flushed' if ncl == 0 else 'closed-twice',
+                     '%s: Dependency.close ran %d times: the DB was %s; tasks reported successful before the abort: %s'
+                     % (where, ncl, 'never flushed' if ncl == 0 else 'closed more than once', succ1)))
+    else:
+        post = ev[ev.index([10]) + 1:]
+        bad = [e for e in post if e[0] in (6, 7, 8) or (serial and e[0] not in (9, 11, 12, 13))]
+        if bad:
+            viol.append(('after-close', '%s: events after Dependency.close: %s' % (where, bad)))
+    # oracle 2: what the DB records afterwards (the real backend class reads it): exactly the tasks saved and flushed
+    if res['recorded'] != res['expected_recorded']:
+        viol.append(('db', '%s: afterwards the DB records %s, the successful+flushed tasks are %s'
+                     % (where, res['recorded'], res['expected_recorded'])))
+    seen = set()
+    for ckind, what in res['complaints']:
+        if ckind not in seen:
+            seen.add(ckind)
+            viol.append((ckind, '%s: %s' % (where, what)))
+    # oracle 3: the next run (without the defect that aborted this one)
+    skipped2 = sorted(names[i] for i in ev_tasks(v2, 3))
+    executed2 = sorted(names[i] for i in ev_tasks(v2, 5))
+    if res['rc2'] != 0:
+        viol.append(('next-rc', '%s: the next run exits %s: %s' % (where, res['rc2'], res['err2'][-200:])))
+    elif skipped2 != res['expect_skip2']:
+        lying = sorted(set(skipped2) - set(res['expect_skip2']))
+        viol.append(('lying', '%s: LYING DB: the next run skips %s which have no flushed successful execution with the present state' % (where, lying))
+                    if lying else
+                    ('forgot', '%s: the next run forgot %s (executed although recorded successful and unchanged)'
+                     % (where, sorted(set(res['expect_skip2']) - set(skipped2)))))
+    never = {t['name'] for t in sc['tasks'] if t.get('getargs')
+             and sc['tasks'][ids[t['getargs'][0]]]['actions'][-1].get('ret') not in ('dict', 'str')}
+    again = [nm for nm in succ1 if nm in v2['sel'] and nm in executed2 and nm not in never]
+    if again and not any(s == 'forgot' for s, _ in viol):
+        viol.append(('forgot', '%s: reported successful before the abort, executed again by the next run although nothing changed: %s' % (where, again)))
+    if reached and k is not None and target in v2['sel'] and target not in executed2:
+        viol.append(('lying', '%s: LYING DB: the aborting task %s was skipped by the next run' % (where, target)))
+    return viol, reached
+
+
+def abort_jobs(ctx, base):
+    """the cases of (1d): the systematic block (no PRNG draw) + random abort points in generated task sets"""
+    rng = ctx.rng
+    jobs = []
+    fsc = fixed_abort_scenario()
+
+    def add(sc, backend, runner, variant, kind, target, ai, edges, label, modify, **kw):
+        jobs.append(dict(dir=os.path.join(base, 'a%d' % len(jobs)), sc=sc, backend=backend, variant=variant, target=target, ai=ai, kind=kind,
+                         edges=edges, label=label, modify=modify, failing=None, runner=runner, args=list(RUNNER_ARGS[runner]), replay='abort', **kw))
+    for bi, backend in enumerate(BACKENDS):
+        for ri, runner in enumerate(('serial', 'thread', 'process')):
+            pts = FIXED_ABORT_POINTS
+            if ctx.quick and runner != 'serial':
+                # quick tier, parallel runners: two points of each of (a)-(d) on every backend, the other points on one backend each (rotating)
+                pts = [p for pi, p in enumerate(FIXED_ABORT_POINTS)
+                       if (p[0], p[1] or p[4]) in FIXED_ABORT_QUICK_PARALLEL or (pi + ri) % 3 == bi]
+            for kind, target, ai, edges, label in pts:
+                for variant in (('prior',) if ctx.quick else ('prior', 'fresh')):
+                    add(fsc, backend, runner, variant, kind, target, ai, edges, label, sources_of(fsc) if variant == 'prior' else [], fixed=True)
+    n_fixed = len(jobs)
+    # from the PRNG: generated task sets (the plain ones of (1) and the value ones of (1b)), any task / action, any of the abort kinds
+    scs = [gen_scenario(rng, n) for n in ([3, 4] if ctx.quick else [2, 3, 3, 4, 4, 4])] + [gen_value_scenario(rng, n) for n in ([3] if ctx.quick else [3, 4, 2])]
+    for sc in scs:
+        reach = depends_on(sc)
+        srcs = sources_of(sc)
+        back = [(a, b) for a in reach for b in reach[a]]        # a waits for b: the added edge b -> a closes a cycle
+        for _ in range(ctx.n(10, 24)):
+            kind = rng.choice(list(ABORT_ACTION_KINDS) + list(ABORT_TASK_KINDS) + ['cycle', 'cycle'])
+            if kind == 'cycle' and not back:
+                kind = 'utd'
+            t = rng.choice(sc['tasks'])
+            backend = rng.choice(BACKENDS)
+            runner = rng.choice(['serial', 'serial', 'thread', 'process'])
+            variant = rng.choice(['fresh', 'prior', 'prior'])
+            own = ['src' + t['name'][1:]] + ([t['revfile']] if t.get('revfile') else [])
+            modify = sorted(set(rng.sample(srcs, rng.randrange(0, len(srcs) + 1)) + own)) if variant == 'prior' else []
+            if kind == 'cycle':
+                a, b = rng.choice(back)
+                add(sc, backend, runner, variant, kind, None, 0, [[b, a, rng.choice(['task_dep', 'task_dep', 'setup'])]], 'd-random', modify)
+            else:
+                add(sc, backend, runner, variant, kind, t['name'], rng.randrange(len(t['actions'])) if kind in ABORT_ACTION_KINDS else 0,
+                    None, {'utd': 'b', 'saver': 'c', 'stamp': 'c'}.get(kind, 'a'), modify)
+    return jobs, n_fixed
+
+
+def part_abort(ctx, out, cases):
+    base = ctx.subdir('abort')
+    jobs, n_fixed = abort_jobs(ctx, base)
+    with concurrent.futures.ThreadPoolExecutor(max_workers=common.NCPU) as ex:
+        results = list(ex.map(interrupt_case, jobs))
+    n_model = 0
+    for job, res in zip(jobs, results):
+        sc = job['sc']
+        desc = dict(res['job'])
+        shape = 'abort:%s:%s:%s:%s' % (job['kind'], job['backend'], job['variant'], job['runner'])
+        for kind_, what in res['problems']:
+            out.mismatches.append(dict(case=desc, impl=what, model='harness could not set up the case'))
+        if 'v1' not in res:
+            continue
+        out.evaluations += 1
+        viol, reached = judge_abort(job, res)
+        v1 = res['v1']
+        names = [t['name'] for t in sc['tasks']]
+        n_succ = len(ev_tasks(v1, 6))
+        out.count('abort:%s:%s:%s%s' % (job['label'], job['kind'], job['runner'], ':systematic' if job.get('fixed') else ''))
+        out.count('abort-backend:%s' % job['backend'])
+        if reached:
+            out.nontrivial.add(('abort', job['backend'], job['variant'], job['runner'], job['kind'], tuple(v1['trace'])))
+            out.count('abort-reached:tasks-reported-successful-before:%s' % ('0' if n_succ == 0 else ('1' if n_succ == 1 else '2+')))
+            if job['kind'] == 'cycle':
+                out.count('abort-cycle-diagnostic:%s:%s' % ('hold-on' if [12] in v1['events'] else 'ancestors', job['runner']))
+        elif job.get('fixed'):
+            out.mismatches.append(dict(case=desc, impl='the abort point was not reached: trace %s rc %s %s' % (v1['trace'], res['rc1'], res.get('err1', '')[-300:]),
+                                       model='systematic block of (1d): every abort point is reached'))
+        else:
+            out.count('abort-point-not-reached (task not selected / up-to-date / the added edge closes no cycle on a selected path)')
+        # correspondence with Model/Runner.v: only the ends the model has -- (d) is StopCycle / StopHold (finish, then InvalidDodoFile ->
+        # exit 3); a run whose abort point was not reached ended normally (StopNormal).  (a)-(c) have no end in the model: oracles only
+        if job['runner'] == 'serial' and (job['kind'] == 'cycle' or not reached):
+            case, _ = model_case(sc, job, res, desc, str(len(cases)))
+            case['desc'] = ('abort-trace+db', desc)
+            cases.append(case)
+            n_model += 1
+        for sfx, what in viol:
+            out.violations.append(dict(what=what, shape=shape + ':' + sfx, case=desc))
+        if reached and n_succ and not any(x.get('kind') == 'abort:' + job['label'] for x in out.samples) and len(out.samples) < 6:
+            out.samples.append(dict(kind='abort:' + job['label'], how=ABORT_WHAT[job['kind']] % dict(ai=job['ai'], target=job['target'], edges=job.get('edges')),
+                                    backend=job['backend'], runner=job['runner'], trace=v1['trace'], exit=res['rc1'], escaped=v1['escaped'],
+                                    recorded_after=res['recorded'], next_run_skipped=sorted(names[i] for i in ev_tasks(res['v2'], 3)),
+                                    next_run_executed=sorted(names[i] for i in ev_tasks(res['v2'], 5))))
+    prio = {'forgot': 0, 'lying': 1, 'not-flushed': 2, 'record': 3, 'swallowed': 4}     # the replay files: the visible consequence first
+    out.violations.sort(key=lambda v: (1, prio.get(v['shape'].rsplit(':', 1)[-1], 9)) if v['shape'].startswith('abort:') else (0, 0))
+    out.extra['abort_runs'] = len(jobs)
+    out.extra['abort_runs_systematic'] = n_fixed
+    out.extra['abort_runs_compared_with_Runner_v (cycle / hold-on ends)'] = n_model
 
 
 # ------------------------------------------------------------------ (2) kill sweep
@@ -1753,17 +2113,27 @@ def run(ctx):
                 'two prior runs}; execution modes: every generated task has io capture True/False/None/default, verbosity 0/1/2/default (and cmd-actions '
                 'before the interrupted action) from the PRNG, plus a seed-independent block: every action of the capture False / None tasks of a fixed '
                 'chain x backend x {serial, thread, process} x {KeyboardInterrupt, SystemExit}; kill: every (syscall, k) of the un-injected counting run x backend x {fresh, prior, prior+failing task}; '
-                'non-trivial = distinct (configuration, observed trace) of a run whose interrupt was reached / distinct kill point at which the process really died')
+                'other aborts (1d): a seed-independent block -- 17 abort points of a fixed 6-task set (other BaseException subclasses in an action, a raising '
+                'uptodate callable, a raising value-saver / check_timestamp_unchanged(<missing>), three run-time cycles) x backend x {serial, thread, process} '
+                '(quick, parallel runners: eight of the points on every backend, the others on one each) -- plus random (task, kind) points in generated task sets; '
+                'non-trivial = distinct (configuration, observed trace) of a run whose interrupt / abort point was reached / distinct kill point at which the process really died')
     cases = []
     part_interrupt(ctx, out, cases)
     plan_info = part_kill(ctx, out, cases)
     part_dumb_model(ctx, out, cases)
     part_json_assumptions(ctx, out, plan_info)
+    part_abort(ctx, out, cases)     # last: its PRNG draws come after those of every other part
     bad = compare(ctx, cases)
     out.traces_validated = len(cases)
     for i, m in bad:
         out.mismatches.append(dict(case=cases[i]['desc'], impl=cases[i]['expected'][:400], model=m[:400]))
     out.assumptions = [
+        '(1d) aborts by an exception other than KeyboardInterrupt / SystemExit -- (a) another BaseException subclass raised by an action, (b) an exception of '
+        'an uptodate callable at check time, (c) an exception of a value-saver after the actions ran -- have NO end in Model/Runner.v (its ends are StopNormal, '
+        'StopCycle, StopHold, StopInterrupt; the shared core is not extended for this property): these runs are judged by the oracles only (the abort reaches '
+        'the caller; close exactly once and nothing saved afterwards; the DB read by the real backend class; the next run); (d) a cyclic dependency found at '
+        'run time IS StopCycle / StopHold of the model and the serial runs are compared with run_serial (trace, exit code 3, DB) -- C06_every_exit_flushes '
+        'speaks about these ends',
         'the capture mode (io capture True/False/None), the verbosity and the action class (python-action / cmd-action) of a task are varied on the '
         'IMPLEMENTATION side only: Model/Runner.v and Model/Crash.v do not have these attributes -- the model has one trace for an interrupting action '
         '(execute, then close, exit by the escaping exception), so the correspondence check and oracle 0 (the interrupt ends the run) state what must '
@@ -1820,6 +2190,28 @@ def replay(ctx, payload):
         bad = (res.get('recorded') != res.get('expected_recorded') or skipped != res.get('expect_skip2') or res.get('rc2') != 0
                or res.get('complaints') or res.get('problems') or swallowed or lying)
         return 1 if bad else 0
+    if kind == 'abort':
+        job = dict(dir=d, sc=sc, backend=case['backend'], variant=case['variant'], target=case['target'], ai=case['ai'], kind=case['kind'],
+                   args=case['args'], modify=case.get('modify', []), failing=None, runner=case.get('runner', 'serial'),
+                   history=case.get('history'), revert=[], edges=case.get('edges'), replay='abort')
+        res = interrupt_case(job)
+        for what in res.get('problems', []):
+            print('harness problem: %s' % (what,))
+        if 'v1' not in res:
+            return 1
+        names = [t['name'] for t in sc['tasks']]
+        v1, v2 = res['v1'], res['v2']
+        viol, reached = judge_abort(job, res)
+        print('aborted run: %s' % (ABORT_WHAT[job['kind']] % dict(ai=job['ai'], target=job['target'], edges=job.get('edges'))))
+        print('  abort point reached: %s; exit status %s (97 = a BaseException escaped DoitMain.run: %s); trace=%s' % (reached, res['rc1'], v1['escaped'], v1['trace']))
+        print('  reported successful before the abort: %s; Dependency.close ran %d time(s)' % ([names[i] for i in ev_tasks(v1, 6)], v1['events'].count([10])))
+        print('  last lines of stderr: %s' % res.get('err1', '').strip().splitlines()[-2:])
+        print('DB records %s, expected %s' % (res['recorded'], res['expected_recorded']))
+        print('next run: rc=%s skipped=%s executed=%s, expected skipped=%s' % (res['rc2'], sorted(names[i] for i in ev_tasks(v2, 3)),
+                                                                              sorted(names[i] for i in ev_tasks(v2, 5)), res['expect_skip2']))
+        for sfx, what in viol:
+            print('VIOLATED (%s): %s' % (sfx, what))
+        return 1 if viol or res.get('problems') else 0
     if kind == 'kill':
         base = os.path.join(ctx.subdir('replay'), 'base')
         os.makedirs(base)
